@@ -115,7 +115,8 @@ m('C18-little-endian-tu64', T, '''        Ok(u64::from_be_bytes(b))''', '''     
 m('C19-swap-deltas', MAIN, '''        cltv_delta,
         local_pubkey: info.id,''', '''        cltv_delta: cltv_expiry_delta,
         local_pubkey: info.id,''', ['C19'])
-m('C19-swap-timeouts', MAIN, '''    let mpp_timeout = Duration::from_secs(mpp_timeout_secs);''', '''    let mpp_timeout = Duration::from_secs(payment_timeout_secs);''', ['C19'])
+m('C19-swap-timeouts', MAIN, '''    let mpp_timeout = Duration::from_secs(mpp_timeout_secs);''', '''    let _unused: u64 = mpp_timeout_secs;
+    let mpp_timeout = Duration::from_secs(payment_timeout_secs);''', ['C19'])
 m('C19-lt-for-le', MAIN, '''    if cltv_expiry_delta <= cltv_delta {''', '''    if cltv_expiry_delta < cltv_delta {''', ['C19'])
 m('C20-ne-for-gt', B, '''    let updated = if new_height > *current_height {''', '''    let updated = if new_height != *current_height {''', ['C20'])
 m('C17-reply-null-id-on-error', CM, '''                                    "jsonrpc": "2.0",
@@ -135,7 +136,45 @@ m('C10-self-hint-any-hop', H, '''            hint.0
                 .first()
                 .map(|hop| hop.src_node_id.eq(&self.params.local_pubkey))
                 .unwrap_or(false)''', ['C10'])
-m('C14-shared-time-left', H, None, None, [])  # placeholder, skipped
+m('C11-sleep-half', H, '''        _ = tokio::time::sleep(time_left) => {''', '''        _ = tokio::time::sleep(time_left / 2) => {''', ['C11'])
+m('C11-restart-grants-double-timeout', H, '''            params.mpp_timeout.saturating_sub(
+                std::time::SystemTime::now()''', '''            (params.mpp_timeout * 2).saturating_sub(
+                std::time::SystemTime::now()''', ['C11'])
+m('C05-skip-wait-when-pending', H, '''                    Ok(maybe_preimage) => break maybe_preimage,
+                    Err(e) => {
+                        error!("Failed to await pending payment, retrying: {:?}", e);''', '''                    Ok(_) => break None,
+                    Err(e) => {
+                        error!("Failed to await pending payment, retrying: {:?}", e);''', ['C05','C02'])
+m('C12-ignore-base-fee', MSG, '''        let fee_msat = match (self.fee_base_msat as u64).checked_add(rate_part) {
+            Some(total_part) => total_part,
+            None => return false,
+        };''', '''        let fee_msat = rate_part;''', ['C12','C03'])
+m('C19-mpp-timeout-in-millis', MAIN, '''    let mpp_timeout = Duration::from_secs(mpp_timeout_secs);''', '''    let mpp_timeout = Duration::from_millis(mpp_timeout_secs);''', ['C19'])
+m('C07-fail-only-after-ready-check', H, '''        if !self.is_fail_requested {
+            self.is_ready = false;
+            self.is_fail_requested = true;''', '''        if !self.is_fail_requested && !self.is_ready {
+            self.is_ready = false;
+            self.is_fail_requested = true;''', ['C07'])
+m('C01-hash-check-dropped', H, '''        if AsRef::<[u8]>::as_ref(invoice.payment_hash()) != req.htlc.payment_hash.as_slice() {''', '''        if false && AsRef::<[u8]>::as_ref(invoice.payment_hash()) != req.htlc.payment_hash.as_slice() {''', ['C01','C10'])
+m('C15-parallel-lists-again', P, '''        let pending_payments = pending_payments_fut.await?;
+        let completed_payments = completed_payments_fut.await?;''', '''        let (completed_payments, pending_payments) = tokio::join!(completed_payments_fut, pending_payments_fut);
+        let (completed_payments, pending_payments) = (completed_payments?, pending_payments?);''', ['C15','C16','C02'])
+m('C09-mark-failed-must-replace-again', S, '''                // The attempt record may be missing when an earlier run was
+                // interrupted between the two writes of `add_payment_attempt`.
+                mode: Some(DatastoreMode::CREATE_OR_REPLACE),''', '''                mode: Some(DatastoreMode::MUST_REPLACE),''', ['C09'])
+m('C18-varint-check-dropped', T, '''        if self.remaining() < 1 + needed {''', '''        if false && self.remaining() < 1 + needed {''', ['C18','C06'])
+m('C12-unchecked-add-again', MSG, '''        match invoice_msat.checked_add(fee_msat) {
+            Some(required_msat) => total_msat >= required_msat,
+            None => false,
+        }''', '''        total_msat >= invoice_msat.wrapping_add(fee_msat)''', ['C12','C03'])
+m('C02-fetch-error-fails-set-again', H, '''            Err(e) => {
+                error!("Failed to fetch payment info, retrying: {:?}", e);
+                tokio::time::sleep(RETRY_DELAY).await;
+            }''', '''            Err(e) => {
+                error!("Failed to fetch payment info: {:?}", e);
+                resolve(&payments, &trampoline, HtlcAcceptedResponse::temporary_node_failure()).await;
+                return;
+            }''', [])
 
 def sh(cmd, cwd=None, timeout=3600):
     return subprocess.run(cmd, shell=True, cwd=cwd, capture_output=True, text=True, timeout=timeout)
@@ -160,7 +199,7 @@ for name,file,old,new,checks,count in M:
     open(path,'w').write(src.replace(old,new))
     try:
         t=sh('timeout 150 cargo test --offline 2>&1 | grep -E "^error|test result"; pkill -x -f "[^ ]*/target/debug/deps/trampoline-[0-9a-f]*" >/dev/null 2>&1', REPO)
-        tests='pass' if 'ok. 56 passed' in t.stdout else ('BUILD-ERR' if 'error' in t.stdout else ('suite-HANGS' if 'test result' not in t.stdout else 'suite-FAILS:'+t.stdout.strip().split('\n')[-1][:60]))
+        tests='pass' if 'ok. 56 passed' in t.stdout else ('suite-FAILS:'+[l for l in t.stdout.split('\n') if 'test result' in l][0][13:50] if 'test result' in t.stdout else ('BUILD-ERR' if 'error' in t.stdout else 'suite-HANGS-or-slow'))
         out=[]
         for c in checks:
             r=sh(f'./check {c} --tier quick 2>&1', '/verif')
